@@ -22,6 +22,20 @@ CHECKS = {
         design="4/C19"),
 }
 
+CHECKS["C17"] = dict(
+    level="model_checking", engine="S",
+    technique="z3 decides the AST-derived encoding of EventManager.notify and event_return.* against the written "
+              "specification for all return words / None-ness / data values (bit-vectors), per enumerated registration; "
+              "cvc5 cross-check",
+    text="The functions notify, sync_event_return and the flag predicates are read from /repo's AST and executed on z3 "
+         "terms (8-bit flag words, optional returns, symbolic in/out data, ghost clock for order). For every enumerated "
+         "registration of up to k handlers and language-set forms the query 'path condition and not specification' is "
+         "unsat for all 256^k x 2^k return combinations; sat answers are replayed on the real EventManager. Bounded by k, "
+         "the bit width and the language-form list, which is what the property's quantifier enumerates.",
+    note="Trusted: z3 (cvc5 re-decides kernel queries), the AST interpreter (validated against the real "
+         "sync_event_return on a concrete grid each run), the handler stub contract listed in evidence.assumptions.",
+    design="4/C17")
+
 NOT_APPLICABLE = {
     "C12": "A relation between two whole-pipeline runs on syntactically edited programs: the quantified objects are "
            "program texts and edit sequences; no run-time input, id, flag or history for a solver to range over; "
